@@ -78,6 +78,21 @@ def binop(I, op, a, b):
         if a.et != b.et:
             raise Unsupported("list concat of different element types")
         i = z3.Int("cc_i")
+        if getattr(I.cur_contract, "named_seqs", False) and not I.spec:
+            # contract option named_seqs: the concatenation is a *named* array constrained pointwise with explicit
+            # triggers (same meaning as the lambda encoding below, but quantifier instantiation can chain through it)
+            res = I.fresh_value(TList(a.et), "cat")
+            p = I.path
+            p.assume(res.n == a.n + b.n)
+            plain = lambda arr: not z3.is_quantifier(arr)
+            pa = [z3.Select(res.arr, i)] + ([z3.Select(a.arr, i)] if plain(a.arr) else [])
+            p.assume(z3.ForAll([i], z3.Implies(z3.And(0 <= i, i < a.n), z3.Select(res.arr, i) == z3.Select(a.arr, i)), patterns=pa))
+            p.assume(z3.ForAll([i], z3.Implies(z3.And(a.n <= i, i < a.n + b.n), z3.Select(res.arr, i) == z3.Select(b.arr, i - a.n)),
+                               patterns=[z3.Select(res.arr, i)]))
+            if plain(b.arr):
+                p.assume(z3.ForAll([i], z3.Implies(z3.And(0 <= i, i < b.n), z3.Select(res.arr, a.n + i) == z3.Select(b.arr, i)),
+                                   patterns=[z3.Select(b.arr, i)]))
+            return res
         arr = z3.Lambda([i], z3.If(i < a.n, z3.Select(a.arr, i), z3.Select(b.arr, i - a.n)))
         return VSeq(arr, a.n + b.n, a.et, "list")
     if isinstance(op, ast.Mod) and isinstance(a, VStr):
@@ -1142,6 +1157,11 @@ def sort_seq(I, v, key):
     p.assume(z3.ForAll([j], z3.Implies(z3.And(0 <= j, j < n),
                                       z3.And(0 <= sgi(j), sgi(j) < n, sg(sgi(j)) == j,
                                              z3.Select(res.arr, sgi(j)) == z3.Select(v.arr, j)))))
+    # the same fact again, instantiable at a trig()-marked index (see Interp.spec_trig)
+    mk = z3.Function("trig_mark", z3.IntSort(), z3.BoolSort())
+    p.assume(z3.ForAll([j], z3.Implies(z3.And(mk(j), 0 <= j, j < n),
+                                      z3.And(0 <= sgi(j), sgi(j) < n, sg(sgi(j)) == j,
+                                             z3.Select(res.arr, sgi(j)) == z3.Select(v.arr, j))), patterns=[mk(j)]))
 
     def keyof(e):
         x = v.et.wrap(e)
@@ -1192,6 +1212,16 @@ def bi_round(I, args, kw):
 
 
 def bi_sum(I, args, kw):
+    """sum(xs) over a list of ints/floats: an uninterpreted function of the list (only equal lists give equal sums)"""
+    v = I.force(args[0]) if not I.spec else args[0]
+    if isinstance(v, VEmptyList) and len(args) == 1:
+        return VInt(0)
+    if isinstance(v, VSeq) and len(args) == 1 and (v.et is TInt or v.et is TReal):
+        t = v.t
+        rs = z3.IntSort() if v.et is TInt else z3.RealSort()
+        f = z3.Function("seq_sum_" + ("int" if v.et is TInt else "real"), t.sort(), rs)
+        I.ver.note_assumption("sum(list) is an uninterpreted function of the list")
+        return (VInt if v.et is TInt else VReal)(f(unwrap(v, t)))
     raise Unsupported("sum()")
 
 
@@ -1724,6 +1754,14 @@ def comprehension(I, n, env):
         et = lt
     elt_e = unwrap(elt, et)
     if not conds:
+        if getattr(I.cur_contract, "named_seqs", False) and not saved:
+            res = I.fresh_value(TList(et), "map")
+            p.assume(res.n == base.n)
+            pats = [z3.Select(res.arr, i)]
+            if base.arr is not None and not z3.is_quantifier(base.arr):
+                pats.append(z3.Select(base.arr, i))
+            p.assume(z3.ForAll([i], z3.Implies(z3.And(0 <= i, i < base.n), z3.Select(res.arr, i) == elt_e), patterns=pats))
+            return res
         return VSeq(z3.Lambda([i], elt_e), base.n, et, "list")
     cond = z3.And(conds)
     # filter: res[j] = elt(sel(j)), sel strictly increasing, hits exactly the indices satisfying cond
@@ -1741,7 +1779,7 @@ def comprehension(I, n, env):
     p.assume(z3.ForAll([j, j2], z3.Implies(z3.And(0 <= j, j < j2, j2 < res.n), sel(j) < sel(j2)),
                        patterns=[z3.MultiPattern(sel(j), sel(j2))]))
     hit_pats = [rank(i)]
-    if base.arr is not None:
+    if base.arr is not None and not z3.is_quantifier(base.arr):
         hit_pats.append(z3.Select(base.arr, i))
     p.assume(z3.ForAll([i], z3.Implies(z3.And(0 <= i, i < base.n, cond),
                                       z3.And(0 <= rank(i), rank(i) < res.n, sel(rank(i)) == i,
